@@ -349,6 +349,7 @@ class CompMixin:
     b['fresh'] = B('fresh', _b_fresh)
     b['same'] = B('same', lambda ex, a, k, n: V(S.BOOL, a[0].t == ex.coerce(a[1], a[0].sort).t))
     b['store'] = B('store', _b_store)
+    b['append'] = B('append', _b_append)
     b['const_seq'] = B('const_seq', lambda ex, a, k, n: V(S.Seq(a[0].sort), S.Seq(a[0].sort).mk(z3.K(z3.IntSort(), a[0].t), z3.IntVal(0))))
     b['ite'] = B('ite', lambda ex, a, k, n: ex.ite(ex.truth(a[0]), a[1], a[2]))
     return b
@@ -624,6 +625,18 @@ def _b_store(ex, a, k, n):
   q, i, v = a
   s = q.sort
   return V(s, s.mk(z3.Store(s.arr(q.t), ex.as_int(i), ex.coerce(v, s.elem).t), s.len(q.t)))
+
+
+def _b_append(ex, a, k, n):
+  """Spec-level q + [v] (array store; frame fact triggered on the old list's elements)."""
+  q, v = a
+  s = q.sort
+  ln = s.len(q.t)
+  newarr = z3.Store(s.arr(q.t), ln, ex.coerce(v, s.elem).t)
+  p_ = z3.FreshConst(z3.IntSort(), 'p')
+  ex.assume(z3.ForAll([p_], z3.Implies(z3.And(0 <= p_, p_ < ln), z3.Select(newarr, p_) == z3.Select(s.arr(q.t), p_)),
+                      patterns=[z3.Select(s.arr(q.t), p_)]))
+  return V(s, s.mk(newarr, ln + 1))
 
 
 def _chk(ex, v, lo, hi, what):
